@@ -708,6 +708,54 @@ theorem keys_subset_partial (o : SObj) (name : List Nat) (h : name ∈ o.keys) (
     rw [List.mem_filter] at h
     simpa using h.1
 
+/-! ## Order of conversions -/
+
+/-- two plans that choose the same next operand produce the same call log, throw together, and otherwise
+    finish on the same converted values -/
+theorem exec_next_congr (p q : Plan) (r : Run) (h : p.next = q.next) :
+    ∀ (fuel : Nat) (d : Done) (log : List Nat),
+      (exec p r fuel d log).1 = (exec q r fuel d log).1 ∧
+      (((exec p r fuel d log).2 = .throwScript ∧ (exec q r fuel d log).2 = .throwScript) ∨
+       ∃ d', (exec p r fuel d log).2 = p.finish r d' ∧ (exec q r fuel d log).2 = q.finish r d') := by
+  intro fuel
+  induction fuel with
+  | zero => intro d log; exact ⟨rfl, Or.inr ⟨d, rfl, rfl⟩⟩
+  | succ f ih =>
+    intro d log
+    simp only [exec, ← h]
+    cases hn : p.next r d with
+    | none => exact ⟨rfl, Or.inr ⟨d, rfl, rfl⟩⟩
+    | some who =>
+      simp only []
+      cases ho : r.operand who with
+      | prim v => exact ih _ _
+      | obj outs =>
+        simp only []
+        split
+        · exact ⟨rfl, Or.inl ⟨rfl, rfl⟩⟩
+        · exact ih _ _
+
+/-- C09.order_agrees: for concat, localeCompare, slice, substring, substr, trim, toLowerCase and toUpperCase the Go
+    statement order IS the ES5 step order: receiver first, then the arguments left to right, each at most once
+    (the end / length argument only if it is supplied and not undefined) -/
+theorem order_agrees (E : Env) (m : String)
+    (hm : m ∈ ["concat", "localeCompare", "slice", "substring", "substr", "trim", "toLowerCase", "toUpperCase"]) :
+    goOrder E m = Spec.es5Order m := by
+  funext r d
+  simp only [List.mem_cons, List.not_mem_nil, or_false] at hm
+  rcases hm with h | h | h | h | h | h | h | h <;> subst h <;> simp [goOrder, Spec.es5Order] <;>
+    (try (by_cases h1 : r.args.length = 1 <;> simp [h1, present])) 
+
+/-- C09.seq_log_eq: for those methods, on every receiver and argument list (primitive, scripted, throwing), the
+    implementation's plan and the ES5 plan make the same conversion calls in the same order, throw at the
+    same call, and otherwise apply their pure functions to the same converted values -/
+theorem seq_log_eq (E : Env) (m : String) (r : Run)
+    (hm : m ∈ ["concat", "localeCompare", "slice", "substring", "substr", "trim", "toLowerCase", "toUpperCase"]) :
+    ((goPlan E m).run r).1 = ((Spec.es5Plan E m).run r).1 ∧
+    ((((goPlan E m).run r).2 = .throwScript ∧ ((Spec.es5Plan E m).run r).2 = .throwScript) ∨
+     ∃ d', ((goPlan E m).run r).2 = (goPlan E m).finish r d' ∧ ((Spec.es5Plan E m).run r).2 = (Spec.es5Plan E m).finish r d') :=
+  exec_next_congr (goPlan E m) (Spec.es5Plan E m) r (order_agrees E m hm) _ _ _
+
 /-! ## Deviation regions: kernel-checked witnesses (each is replayed on the real code by the harness) -/
 
 /-- a parameter instance for the witnesses (no string→number or number→string conversion occurs) -/
@@ -769,6 +817,25 @@ example : (SObj.build sABC [[102, 111, 111], [0x35], [0x30], sLength]).ownNames 
     [[0x30], [0x31], [0x32], sLength, [102, 111, 111], [0x35]] := by decide
 example : (SObj.build sABC []).hasOwn [0x30, 0x31] = false ∧ (SObj.build sABC []).hasOwn [0x33] = false ∧
     (SObj.build sABC []).hasOwn [0x32] = true ∧ (SObj.build sAXB []).hasOwn [0x33] = true := by decide
+
+
+-- order regions: the call log of the implementation's plan against the ES5 plan (0 = receiver, k+1 = argument k)
+def oS (bs : List Nat) : Operand := .obj [.ret (.str bs)]
+def oN (n : Nat) : Operand := .obj [.ret (num n)]
+-- order_charAt_pos_first: charAt.call(o, p) calls p.valueOf before o.toString
+example : ((goPlan E0 "charAt").run ⟨oS sABC, [oN 1]⟩).1 = [1, 0] ∧ ((Spec.es5Plan E0 "charAt").run ⟨oS sABC, [oN 1]⟩).1 = [0, 1] := by decide
+-- order_split_limit0: "a,b".split(sep, 0) never converts sep
+example : ((goPlan E0 "split").run ⟨.prim (.str sABC), [oS [0x2C], .prim (num 0)]⟩).1 = [] ∧
+    ((Spec.es5Plan E0 "split").run ⟨.prim (.str sABC), [oS [0x2C], .prim (num 0)]⟩).1 = [1] := by decide
+-- order_replace_lazy: "abc".replace("x", r) never converts r
+example : ((goPlan E0 "replace").run ⟨.prim (.str sABC), [.prim (.str [0x78]), oS [0x79]]⟩).1 = [] ∧
+    ((Spec.es5Plan E0 "replace").run ⟨.prim (.str sABC), [.prim (.str [0x78]), oS [0x79]]⟩).1 = [2] := by decide
+-- order_lastIndexOf_empty: "".lastIndexOf("x", p) never converts p
+example : ((goPlan E0 "lastIndexOf").run ⟨.prim (.str []), [.prim (.str [0x78]), oN 2]⟩).1 = [] ∧
+    ((Spec.es5Plan E0 "lastIndexOf").run ⟨.prim (.str []), [.prim (.str [0x78]), oN 2]⟩).1 = [2] := by decide
+-- slice converts start before end, the end conversion does not run when start throws
+example : (goPlan E0 "slice").run ⟨.prim (.str sABC), [oN 1, oN 2]⟩ = ([1, 2], .str [0x62]) ∧
+    (goPlan E0 "slice").run ⟨.prim (.str sABC), [.obj [.throw], oN 2]⟩ = ([1], .throwScript) := by decide
 
 /-! ## Non-vacuity of the side conditions -/
 example : NoLone (.strObj sAXB) ∧ NoLone (.val16 [0xD835, 0xDCB3]) ∧ SmallInt (num 2) ∧ SmallInt (.int .i64 7) ∧ ¬ NoLone (.val16 [0xD800]) := by
